@@ -768,6 +768,13 @@ class Session:
                 and a not in have
                 and a
                 and not any(h[: len(a)] == a or a[: len(h)] == h for h in have)
+                # ... nor on static parts: under a vector combinator the entries at
+                # different indices are merged per index level
+                and not any(
+                    static_part(h) != static_part(a)
+                    and (static_part(h)[: len(static_part(a))] == static_part(a) or static_part(a)[: len(static_part(h))] == static_part(h))
+                    for h in have
+                )
             ]
             # must not shadow: an address is "free" only if no constrained address
             # shares its static path with other indices grouped by the builder
